@@ -31,6 +31,9 @@ var swaps = map[token.Token][]string{
 	token.AND: {"|"}, token.OR: {"&"}, token.XOR: {"&"},
 }
 
+// delMode: enumerate statement deletions instead of the expression-level mutants (MUTATE_CLASS=del)
+var delMode = os.Getenv("MUTATE_CLASS") == "del"
+
 func collect(repo string) []mutant {
 	var out []mutant
 	filepath.Walk(repo, func(path string, info os.FileInfo, err error) error {
@@ -71,13 +74,13 @@ func collect(repo string) []mutant {
 					return false
 				}
 			case *ast.BinaryExpr:
-				if depthLit == 0 {
+				if depthLit == 0 && !delMode {
 					for _, nw := range swaps[v.Op] {
 						add(v.OpPos, v.OpPos+token.Pos(len(v.Op.String())), nw)
 					}
 				}
 			case *ast.BasicLit:
-				if depthLit == 0 && v.Kind == token.INT {
+				if depthLit == 0 && v.Kind == token.INT && !delMode {
 					if x, err := strconv.ParseInt(v.Value, 0, 64); err == nil {
 						add(v.Pos(), v.End(), strconv.FormatInt(x+1, 10))
 						if x > 0 {
@@ -86,13 +89,35 @@ func collect(repo string) []mutant {
 					}
 				}
 			case *ast.IfStmt:
-				if depthLit == 0 {
+				if depthLit == 0 && !delMode {
 					o, e := fset.Position(v.Cond.Pos()).Offset, fset.Position(v.Cond.End()).Offset
 					out = append(out, mutant{rel, o, e, string(src[o:e]), "!(" + string(src[o:e]) + ")", fmt.Sprintf("%d:%d", fset.Position(v.Cond.Pos()).Line, fset.Position(v.Cond.Pos()).Column)})
 				}
 			case *ast.UnaryExpr:
-				if depthLit == 0 && v.Op == token.NOT {
+				if depthLit == 0 && v.Op == token.NOT && !delMode {
 					add(v.OpPos, v.OpPos+1, "")
+				}
+			case *ast.BlockStmt:
+				// statement deletions (class "del"): an if without else, an assignment to existing variables, an
+				// expression statement, ++/--; declarations stay (deleting them does not compile)
+				if delMode && depthLit == 0 {
+					for _, st := range v.List {
+						del := false
+						switch x := st.(type) {
+						case *ast.IfStmt:
+							del = x.Else == nil && x.Init == nil
+						case *ast.AssignStmt:
+							del = x.Tok != token.DEFINE
+						case *ast.ExprStmt:
+							del = true
+						case *ast.IncDecStmt:
+							del = true
+						}
+						if del {
+							o, e := fset.Position(st.Pos()).Offset, fset.Position(st.End()).Offset
+							out = append(out, mutant{rel, o, e, string(src[o:e]), "{}", fmt.Sprintf("%d:%d", fset.Position(st.Pos()).Line, fset.Position(st.Pos()).Column)})
+						}
+					}
 				}
 			}
 			return true
